@@ -4,10 +4,12 @@ Every environment choice the program could depend on is made a solver variable:
 setorder : the iteration order of every set of connection ids (what PYTHONHASHSEED changes) is chosen by the solver each time a set
            is iterated; the C02 assertion must hold on every path, i.e. the export is the same for every order.
 cwd      : os.path.exists() of every path not named on the command line is a symbolic boolean (any working directory).
+sched    : two connections in one capture, main.run() twice in one path; the completion order of concurrent.futures tasks (if the code
+           uses any) is chosen by the solver independently in both runs (tlv/models/sched_model.py): identical writer calls.
 rerun    : main.run() on capture A and then, in the same process, on capture B: B's writer calls must equal those of B alone."""
 
 VALIDATE = False
-SITES = ["no-exception", "datagrams-equal-stream-data", "cwd-independent", "second-run-unaffected"]
+SITES = ["no-exception", "datagrams-equal-stream-data", "cwd-independent", "second-run-unaffected", "schedule-independent"]
 MODELS = ["set(): SymSet with solver-chosen iteration order", "file system / reader / writer stubs (tlv/harness/rundriver.py)", "as C01/C02"]
 ASSUMPTIONS = ["CPython dicts and lists are insertion ordered; sets are the only hash-order dependent containers in the code (connection-id sets)"]
 
@@ -30,6 +32,7 @@ def configs(tier, seed):
     for proto in ("tls", "quic"):
         out.append({"harness": "cwd", "name": "cwd-" + proto, "proto": proto})
         out.append({"harness": "rerun", "name": "rerun-%s-then-%s" % (proto, proto), "first": proto, "second": proto})
+    out.append({"harness": "sched", "name": "sched-two-tls-connections"})
     out.append({"harness": "rerun", "name": "rerun-tls-then-quic", "first": "tls", "second": "quic"})
     out.append({"harness": "rerun", "name": "rerun-quic-then-tls", "first": "quic", "second": "tls"})
     return out
@@ -37,7 +40,7 @@ def configs(tier, seed):
 
 def bounds(tier):
     return {"setorder": "iteration orders of the connection-id sets (identity, reversal, all rotations: every pair in both orders) chosen independently at every iteration, C02 basic and NEW_CONNECTION_ID flows, 5 connection-id length shapes incl. zero-length; one shape in which the client's id is a prefix of the server's id (elsewhere the ids of a connection are assumed prefix-free)",
-            "cwd": "existence of every path not given on the command line", "rerun": "two consecutive in-process runs (TLS/QUIC in all four combinations)",
+            "cwd": "existence of every path not given on the command line", "sched": "two TLS connections, every completion order of <= 3 futures (rotations and reversal beyond)", "rerun": "two consecutive in-process runs (TLS/QUIC in all four combinations)",
             "outside": "PYTHONHASHSEED effects other than set iteration order"}
 
 
@@ -120,6 +123,20 @@ def run_config(cfg):
                 c.check(True, "no-exception")
                 c.check(_same(base, var) and len(base) >= 3, "cwd-independent", "%r vs %r" % ([(x[0], len(x[1]), x[2]) for x in base], [(x[0], len(x[1]), x[2]) for x in var]))
                 return {"outcome": "same", "validate": False}
+            if h == "sched":
+                # two connections in one capture, run twice: whatever a scheduler may decide (completion order of futures, chosen by
+                # the solver independently in both runs) must not show in the writer calls
+                epa, epb = P.Endpoint(ipv=4, c_port=50000), P.Endpoint(ipv=4, c_port=50001)
+                ba, kla, _ = _scenario_blocks(mods, "tls", SC.SymSrc("a."), epa)
+                bb, klb, _ = _scenario_blocks(mods, "tls", SC.SymSrc("b."), epb)
+                blocks = ba + bb
+                mods["tlexport.keylog_reader"].get_keys_from_string = lambda text: P.keylog_objects(mods, kla + klb)
+                argv = ["-i", "in.pcapng", "-o", "o.pcapng", "-s", "k.log"]
+                one = _summ(RD.run_main(mods, argv, RD.RunEnv(mods, blocks, files={"k.log": ""})))
+                two = _summ(RD.run_main(mods, argv, RD.RunEnv(mods, blocks, files={"k.log": ""})))
+                c.check(True, "no-exception")
+                c.check(_same(one, two) and len(one) >= 6, "schedule-independent", "two runs wrote %d and %d packets" % (len(one), len(two)))
+                return {"outcome": "same", "validate": False}
             epa, epb = P.Endpoint(ipv=4, c_port=50000), P.Endpoint(ipv=4, c_port=50001)
             ba, kla, _ = _scenario_blocks(mods, cfg["first"], SC.SymSrc("a."), epa)
             bb, klb, _ = _scenario_blocks(mods, cfg["second"], SC.SymSrc("b."), epb)
@@ -163,7 +180,35 @@ def replay(cfg, viol):
         return {"reproduced": bool(bad), "hash_seeds_with_wrong_export": bad}
     if h == "rerun":
         return _replay_rerun(cfg, viol["inputs"])
+    if h == "sched":
+        return _replay_sched(cfg, viol["inputs"])
     return {"reproduced": None, "why": "no concrete replay for the cwd harness (covered by C09 delivery replays)"}
+
+
+def _replay_sched(cfg, inp):
+    """The real program several times on the concrete two-connection capture: scheduling is not controllable from here, so a
+    difference may need several runs to show (not reproduced within 12 runs -> inconclusive)."""
+    from tlv import e2e
+    from tlv.harness import pipeline as P
+    from tlv.oracle import scenario as SC
+    scfg = {"version": "TLS12", "suite": 0x009c, "suite_name": "TLS_RSA_WITH_AES_128_GCM_SHA256", "records": 2, "max_len": 1, "min_len": 1, "grouping": "one"}
+    pk, kl = [], []
+    # the two connections of the counterexample, and six more copies of them on other client ports: more tasks, more chances for the
+    # scheduler to complete them in another order
+    for rep in range(4):
+        for prefix, port in (("a.", 50000 + 2 * rep), ("b.", 50001 + 2 * rep)):
+            items, keylog, _ = SC.build(scfg, SC.ConcreteSrc(inp, prefix=prefix))
+            pk += e2e.concrete_frames(P.Endpoint(ipv=4, c_port=port), items)
+            kl += keylog if rep == 0 else []
+    outs = set()
+    for i in range(12):
+        r = e2e.run_tlexport(pk, e2e.keylog_text(kl), switch_interval=1e-6 if i % 2 else None)
+        if r["problems"]:
+            return {"reproduced": True, "problems": r["problems"][:2]}
+        outs.add(tuple((d.get("l4"), d.get("sport"), d.get("dport"), d.get("payload"), d["ts"][0]) for d in r["frames"]))
+        if len(outs) > 1:
+            break
+    return {"reproduced": len(outs) > 1, "different_exports": len(outs), "runs": i + 1}
 
 
 def _replay_rerun(cfg, inp):
